@@ -87,12 +87,18 @@ def isGraph (b : Byte) : Bool := 0x21 ≤ b && b ≤ 0x7e
 /-- `MPT_MESGTYPE(Command)` -/
 def msgCommand : Byte := 0x04
 
+/-- non-empty prefixes of a text -/
+def prefixes (t : List Byte) : List (List Byte) := (List.range t.length).map fun k => t.take (k + 1)
+
 /-- Acceptable readings of a command message: `none` = "carries no command text" (the dispatch must fail
     without invoking anybody), `some id` = hash of the command text.
     The message is a 2-byte header `(type, arg)` and a payload.  For a `Command` header with a non-zero `arg`
     that byte separates the arguments and the command text is the first argument after leading white space;
     otherwise the text ends at the first zero byte.  A payload that is all white space has no text; reading
-    the white space itself as the text is tolerated. -/
+    the white space itself as the text is tolerated.
+    A separator that is not a graphic character stands for "split at white space, honour quotes": the quoting
+    rules are not part of the property, so any non-empty prefix of the payload after its leading white space is
+    accepted as the first argument there. -/
 def cmdIds (msg : List Byte) : List (Option Id) :=
   match msg with
   | ty :: arg :: payload =>
@@ -100,12 +106,16 @@ def cmdIds (msg : List Byte) : List (Option Id) :=
     if sep = 0 then
       let t := payload.takeWhile (· != 0)
       if t.isEmpty then [none] else [some (hashDjb2 t)]
-    else
+    else if isGraph sep then
       let t := (payload.dropWhile isSpace).takeWhile (· != sep)
       if t.isEmpty then
         let u := payload.takeWhile (· != sep)
         if u.isEmpty then [none] else [none, some (hashDjb2 u)]
       else [some (hashDjb2 t)]
+    else
+      let t := payload.dropWhile isSpace
+      if t.isEmpty then none :: (prefixes payload).map (fun u => some (hashDjb2 u))
+      else (if t.head? = some 0 then [none] else []) ++ (prefixes t).map (fun u => some (hashDjb2 u))
   | _ => [none]
 
 /- ---------- abstract state ---------- -/
@@ -235,6 +245,12 @@ def run (sp : Spec) : List (Op × Out) → Option Spec
     match sp.step op out with
     | some sp' => run sp' rest
     | none => none
+
+/-- the log a hash dispatch must produce for the reading `cid` of the message -/
+def hashLog (sp : Spec) (cid : Option Id) : List LogE :=
+  match cid with
+  | none => []
+  | some id => match sp.target id with | some r => [.call r id] | none => []
 
 end Spec
 end Mpt.Dispatch
